@@ -16,6 +16,7 @@ import (
 	"sync"
 	"time"
 
+	"github.com/transparency-dev/witness/internal/persistence"
 	"github.com/transparency-dev/witness/internal/persistence/inmemory"
 	"github.com/transparency-dev/witness/omniwitness"
 	"github.com/transparency-dev/witness/verifharness/internal/ref"
@@ -96,6 +97,7 @@ func execDistMain(s distScen, tag string, seed int64) (distMainEvent, error) {
 	}
 	now := uint64(time.Now().Unix())
 	held := map[string][]byte{}
+	next := map[string][]byte{} // the checkpoint an update stores WHILE the first PUT for the log is on its way (between the distributor's checks and the transport reading the body)
 	yaml := "Logs:\n"
 	for i, name := range names {
 		l := w.Logs[name]
@@ -105,7 +107,11 @@ func execDistMain(s distScen, tag string, seed int64) (distMainEvent, error) {
 		}
 		root := w.Root(l, 0, 2)
 		text := ref.CheckpointText(l.Origin, w.Sigma[2], root, "")
-		b := []byte(text + "\n" + l.Key.SignLegacy(text) + w.WitKey.SignLegacy(text) + w.WitKey.SignCosigV1(text, now))
+		// (two signature lines of a stranger besides the log's: the checkpoint that replaces this one while it is being pushed is SHORTER)
+		b := []byte(text + "\n" + l.Key.SignLegacy(text) + w.Unknown.SignLegacy(text) + w.Unknown.SignCosigV1(text, now) + w.WitKey.SignLegacy(text) + w.WitKey.SignCosigV1(text, now))
+		root3 := w.Root(l, 0, 3)
+		text3 := ref.CheckpointText(l.Origin, w.Sigma[3], root3, "")
+		next[l.ID] = []byte(text3 + "\n" + l.Key.SignLegacy(text3) + w.WitKey.SignLegacy(text3) + w.WitKey.SignCosigV1(text3, now))
 		wr, err := p.WriteOps(l.ID)
 		if err != nil {
 			return ev, err
@@ -124,7 +130,7 @@ func execDistMain(s distScen, tag string, seed int64) (distMainEvent, error) {
 		li := 0
 		for i, name := range names {
 			l := w.Logs[name]
-			if r.URL.EscapedPath() == fmt.Sprintf("/distributor/v0/logs/%s/byWitness/%s/checkpoint", l.ID, url.PathEscape(w.WitKey.Name)) && string(body) == string(held[l.ID]) && r.Method == http.MethodPut {
+			if r.URL.EscapedPath() == fmt.Sprintf("/distributor/v0/logs/%s/byWitness/%s/checkpoint", l.ID, url.PathEscape(w.WitKey.Name)) && (string(body) == string(held[l.ID]) || string(body) == string(next[l.ID])) && r.Method == http.MethodPut {
 				li = i + 1
 			}
 		}
@@ -165,7 +171,7 @@ func execDistMain(s distScen, tag string, seed int64) (distMainEvent, error) {
 	ctx, cancel := context.WithTimeout(context.Background(), time.Duration(3*len(names)+6)*distMainInterval)
 	defer cancel()
 	merr := omniwitness.Main(ctx, omniwitness.OperatorConfig{WitnessKeys: signers, WitnessVerifier: witV, FeedInterval: time.Hour,
-		RestDistributorBaseURL: srv.URL, DistributeInterval: distMainInterval}, p, ln, &http.Client{Timeout: 10 * time.Second})
+		RestDistributorBaseURL: srv.URL, DistributeInterval: distMainInterval}, p, ln, &http.Client{Timeout: 10 * time.Second, Transport: &updatingTransport{p: p, next: next, done: map[string]bool{}}})
 	ev.Main = "ended"
 	if merr != nil && !strings.Contains(merr.Error(), "context") && !strings.Contains(merr.Error(), "Server closed") {
 		ev.Main = "failed: " + merr.Error()
@@ -178,4 +184,35 @@ func execDistMain(s distScen, tag string, seed int64) (distMainEvent, error) {
 	}
 	mu.Unlock()
 	return ev, nil
+}
+
+// updatingTransport lets an update be stored between the distributor's checks of a checkpoint and the moment the HTTP transport reads the request
+// body: before the FIRST PUT for a log is passed on, the next checkpoint of that log (another length) is written through the persistence layer, as an
+// accepted update would. What is pushed is then the checkpoint that was checked, or the new one - whole.
+type updatingTransport struct {
+	p    persistence.LogStatePersistence
+	next map[string][]byte
+	mu   sync.Mutex
+	done map[string]bool
+}
+
+func (t *updatingTransport) RoundTrip(r *http.Request) (*http.Response, error) {
+	if r.Method == http.MethodPut {
+		for id, b := range t.next {
+			t.mu.Lock()
+			first := strings.Contains(r.URL.Path, id) && !t.done[id]
+			if first {
+				t.done[id] = true
+			}
+			t.mu.Unlock()
+			if first {
+				if wr, err := t.p.WriteOps(id); err == nil {
+					_, _ = wr.GetLatest()
+					_ = wr.Set(append([]byte{}, b...))
+					wr.Close()
+				}
+			}
+		}
+	}
+	return http.DefaultTransport.RoundTrip(r)
 }
